@@ -879,7 +879,9 @@ int main (int argc, char **argv) {
 			}
 			else if (!op_allowed (t, n, 1, w)) puts ("bad-op");
 			else {
-				char cmd[LINE], trace[LINE * 2] = "", res[256] = "";
+				static char trace[LINE * 16];      /* 1000 EINTR tokens of ~30 bytes each must fit (thorough tier) */
+				char cmd[LINE], res[256] = "";
+				trace[0] = 0;
 				join_toks (cmd, sizeof cmd, t, 1, n);
 				send_cmd (&W[w], cmd);
 				int st = collect (&W[w], "", trace, sizeof trace, res, sizeof res);
